@@ -431,6 +431,7 @@ def sweeps(ctx):
     B22, B23, B32, B33 = [2, 2], [2, 3], [3, 2], [3, 3]
     plan = [([B22], None), ([B23], None), ([B33], None), ([B32], None),
             ([B22, B22], None), ([B22, B23], None), ([B23, B22], None), ([B23, B23], None), ([B32, B23], None),
+            ([B22, B32], None), ([B23, B32], None), ([B32, B32], None),
             ([B22, B22, B22], None),
             ([B33, B33], 262144 if thorough else 3000), ([B33, B23], None if thorough else 1500),
             ([B23, B33], None if thorough else 1500),
@@ -503,6 +504,20 @@ def run(ctx):
                   'bidx': [[[2, 1], [0, 1]], [[1, 0], [0, 1]], [[0, 1]]],
                   'data': [1, -2, 3, 2], 'factors': None, 'x': [1, 2, 3, 1, 2, 3, 1, 2], 'rows': [], 'cols': [], 'rows_as_array': False,
                   'axes': [2, 0, 1], 'cut': 1, 'matrix': None})
+    # fixed regression shapes: tall second-level blocks with lower_tri (an entry above the block
+    # diagonal that is still on/below the matrix diagonal); three levels with a rectangular middle level
+    def dense_pat(m, n):
+        return [[i, j] for i in range(m) for j in range(n)]
+    cases.append({'kind': 'ml', 'bs': [[2, 2], [3, 2]], 'bidx': [[[0, 1], [1, 0]], [[2, 0], [0, 1]]],
+                  'data': [1, 2, 3, 4], 'factors': None, 'x': [1, 2, 3, 4], 'rows': [2, 5], 'cols': [2], 'rows_as_array': False,
+                  'axes': [1, 0], 'cut': 1, 'matrix': None})
+    for mid in ([2, 3], [3, 2]):
+        bs3 = [[2, 2], mid, [2, 2]]
+        bidx3 = [dense_pat(*b) for b in bs3]
+        nn = prod(len(p) for p in bidx3)
+        cases.append({'kind': 'ml', 'bs': bs3, 'bidx': bidx3, 'data': [(7 * q) % 5 - 2 for q in range(nn)], 'factors': None,
+                      'x': [q % 4 - 1 for q in range(prod(b[1] for b in bs3))], 'rows': [1], 'cols': [0], 'rows_as_array': False,
+                      'axes': [2, 0, 1], 'cut': 1, 'matrix': None})
     cases += [gen_ml_case(rng) for _ in range(n_ml)]
     cases += [gen_ml_case(rng, stream='malformed') for _ in range(n_mal)]
     cases += [gen_reindex_case(rng) for _ in range(n_re)]
